@@ -10,6 +10,17 @@ COMMON_NOTE = ("Trusted base: TLC 1.8 evaluating the TLA+ specification in /veri
                "assumption of DESIGN 2.5 for the exhaustive part; simulated / random traces go beyond it.")
 
 CHECKS = {
+ "C08": dict(engine="Kruskal", design="3/C08",
+   text=("Kruskal.tla gives, for every re-parameterisation, the array the result must denote (exact, from the integer "
+         "parameters), the exact resulting parameters where only parameters are moved or multiplied (arrange by "
+         "permutation, redistribute, extract, permute, + - unary- scalar*, vector round trip, update), and the set of "
+         "normal-form predicates the operation promises (unit columns per mode and norm type, non-negative / sorted / "
+         "all-one weights, equal column norms for 'all', sign conventions, list / score contracts, operand unaffected "
+         "by re-parameterising the result).  TLC checks the parameter-level laws and enumerates every option of every "
+         "operation over shapes with 1-3 modes, ranks 1-3, weights of both signs / zero / ties and a column catalogue "
+         "with zero columns; the real results (full() rounded to integers with error <= 1e-9, exact parameters, "
+         "predicates observed with tolerance 1e-9) are validated by TLC against Kruskal_Trace."),
+   technique="TLA+ spec Kruskal (denotation effects, exact parameters, promised normal forms); TLC law checking + exhaustive option generation; replay; TLC trace validation"),
  "C16": dict(engine="FileFormat", design="3/C16",
    text=("FileFormat.tla specifies the four file types as token sequences (keyword / integer / opaque value token = the "
          "four 16-bit limbs of a double's bit pattern), Export(obj) with 1-based subscripts and stored order preserved, "
